@@ -326,7 +326,7 @@ def _compute_stm(dynsys, x0, tf, steps=2000, forward=1, method: Literal["fixed",
         steps=steps,
         method=method,
         order=order,
-        flip_indices=slice(36, 42),
+        flip_indices=None,
         **kwargs
     )
 
